@@ -535,6 +535,53 @@ def t12(rep):
     rep.floor("emulations through a separate copy of the routine", pairs_found, 1)
 
 
+TAPE_READS = ("fintGetTagFmt", "fintGetInt", "fintGetByte", "fintGetHInt", "fintGetSInt", "fintGetn", "fintGetReference", "fintEval",
+              "fintTypedEval", "fintEval_", "fintSkip")
+
+
+def t13(rep):
+    """The interpreter decodes statements from a byte tape.  A case of fintStmt that accepts a tag and continues without reading
+    anything is only right for node kinds that have no operands (foamInfoTable: argc 0): otherwise the operand bytes are decoded as
+    the following statements."""
+    f_fint = common.extract("fint.c", trees=["fintStmt"])
+    f_foam = common.extract("foam.c")
+    rec = f_foam.records.get("foam_info")
+    if rec is None:
+        raise AnalysisBroken("struct foam_info not found")
+    fields = [x[0] for x in rec["f"]]
+    argc = {}
+    for r in common.table_rows(f_foam.var("foamInfoTable")):
+        g = dict(zip(fields, r["c"]))
+        argc[enum_name(g["tag"])] = const_value(g["argc"])
+    if len(argc) < 60:
+        raise AnalysisBroken("foamInfoTable: only %d rows read" % len(argc))
+    fn = f_fint.func("fintStmt")
+    sws = [x for x in walk(fn["body"]) if x["k"] == "SwitchStmt"]
+    if not sws:
+        raise AnalysisBroken("fintStmt: no switch")
+    n = 0
+    for g in common.switch_cases(sws[0]):
+        labs = [l[0] for l in g["labels"] if l[0] and l[0].startswith("FOAM_")]
+        if not labs:
+            continue
+        reads = any((c.get("callee") in TAPE_READS) or (c.get("mac") in TAPE_READS) for st in g["stmts"] for c in walk(st)) or \
+            any(y["k"] == "BinaryOperator" and y["op"] == "=" and (strip(y["c"][0]) or {}).get("n") == "ip"
+                for st in g["stmts"] for y in walk(st))
+        for t in labs:
+            n += 1
+            key = "stmt-consumes-operands:%s" % t
+            if reads or argc.get(t) == 0:
+                rep.ok("T13", key, nontrivial=not reads)
+            elif t not in argc:
+                raise AnalysisBroken("fintStmt: %s has no row in foamInfoTable" % t)
+            else:
+                rep.violation("T13", key, "fint.c:%d (fintStmt)" % g["line"],
+                              "fintStmt accepts a %s statement and continues without reading its %s operand(s): the bytes that "
+                              "follow are decoded as statements, so a program containing such a statement (-Q0 keeps dead ones) "
+                              "aborts in the interpreter and runs as an executable" % (t[5:], argc[t] if argc[t] >= 0 else "N"))
+    rep.floor("statement tags of fintStmt", n, 25)
+
+
 def run(tier, only=None):
     rep = common.Report("C03", tier, EXPLANATION)
     f_fint = common.extract("fint.c", trees=INTERP_CHAIN + ["fintInitForeignGlobValue"])
@@ -549,6 +596,7 @@ def run(tier, only=None):
     t8(rep)
     t10(rep)
     t12(rep)
+    t13(rep)
     from . import variant_dispatch
     _fg = common.extract("genc.c", all_trees=True)
     for _d, _fl in (("gccExpr", 8), ("gccCmd", 3), ("gccRef", 8)):
